@@ -54,8 +54,9 @@ def info_ind(p: int) -> bytes:
     return CEMIFrame(code=CEMIMessageCode.M_PROP_INFO_IND, data=CEMIMPropReadResponse(property_info=info(p), data=b"\xee\xee")).to_knx()
 
 
-def make(kind: str, program: str, with_callback: bool = True):
-    """program: 'seq' = read P1 then write P2; 'par' = read P1 || read P2; 'same' = read P1 twice."""
+def make(kind: str, program: str, with_callback: bool = True, route_back: bool = False):
+    """program: 'seq' = read P1 then write P2; 'par' = read P1 || read P2; 'same' = read P1 twice; 'reuse' = read P1, disconnect(),
+    connect() again on the same object, read P1 (a new connection counts from 0 again on both sides)."""
     tcp = kind == "tcp"
 
     def scenario(ch: Chooser) -> list[tuple[str, str]]:
@@ -83,6 +84,10 @@ def make(kind: str, program: str, with_callback: bool = True):
             def handler(body: Any) -> None:
                 now = loop.time()
                 if isinstance(body, ConnectRequest):
+                    srv["connects"] = srv.get("connects", 0) + 1
+                    if srv["connects"] > 1:
+                        srv["seq"] = 0                       # the server's own counter restarts with the new connection
+                        srv["new_connection_at"] = len(srv["requests"])
                     gw.send(gw.connect_response(CHANNEL, tcp=tcp, request_type=ConnectRequestType.DEVICE_MGMT_CONNECTION))
                 elif isinstance(body, ConnectionStateRequest):
                     gw.send(ConnectionStateResponse(body.communication_channel_id))
@@ -144,7 +149,7 @@ def make(kind: str, program: str, with_callback: bool = True):
             if tcp:
                 conn: Any = TCPDeviceManagementConnection(GW_ADDR[0], GW_ADDR[1], indication_callback=indications.append if with_callback else None)
             else:
-                conn = UDPDeviceManagementConnection(GW_ADDR[0], GW_ADDR[1], local_ip="192.168.1.2", indication_callback=indications.append if with_callback else None)
+                conn = UDPDeviceManagementConnection(GW_ADDR[0], GW_ADDR[1], local_ip="192.168.1.2", route_back=route_back, indication_callback=indications.append if with_callback else None)
             t0 = w.spawn(conn.connect(), name="harness-connect")
             loop.settle()
             if not (t0.done() and texc(t0) is None):
@@ -173,12 +178,22 @@ def make(kind: str, program: str, with_callback: bool = True):
                 elif program == "same":
                     await do("r1a", 1, False)
                     await do("r1b", 1, False)
+                elif program == "reuse":
+                    await do("r1a", 1, False)
+                    try:
+                        await conn.disconnect()
+                        await conn.connect()
+                    except CommunicationError:
+                        return
+                    await do("r1b", 1, False)
                 else:
                     await asyncio.gather(do("r1", 1, False), do("r2", 2, False))
 
             async def closer() -> None:
                 # the user may close the connection while a request is waiting for its answer
                 await asyncio.sleep(0.015)
+                if program == "reuse":
+                    return   # this program closes and reopens the connection itself
                 if ch.choose("user", len(USER)):
                     events.append((round(loop.time(), 3), "user disconnect()"))
                     closed_at.append(loop.time())
@@ -239,6 +254,9 @@ def make(kind: str, program: str, with_callback: bool = True):
                         runs.append([r])
                 expect = 0
                 for run in runs:
+                    nca = srv.get("new_connection_at")
+                    if nca is not None and nca < len(reqs) and run[0] is reqs[nca]:
+                        expect = 0   # first request of the second connection
                     if len(run) > 4:
                         viols.append(("repeated-more-than-three-times", f"{len(run) - 1} repetitions of counter {run[0]['counter']}; events={events}"))
                     if any(x["counter"] != run[0]["counter"] for x in run):
@@ -267,7 +285,7 @@ SCENARIOS = {"dm": make}
 def run(ctx: Ctx) -> None:
     bound = 4 if ctx.thorough else 2
     ctx.rule = (
-        f"real UDP/TCPDeviceManagementConnection (connected through connect()) against a simulated server: programs read P1 then write P2 / read P1 twice / two reads concurrently, optional "
+        f"real UDP/TCPDeviceManagementConnection (connected through connect()) against a simulated server: programs read P1 then write P2 / read P1 twice / two reads concurrently / read, disconnect(), connect() on the same object, read again (also with route_back=True), optional "
         f"user disconnect() while a request waits; per DeviceConfigurationRequest the server acknowledges with {ACKS} (UDP) and answers with {ANSWERS}; EVERY schedule with <= {bound} deviations. "
         "Oracle: a returned read carries the request's property AND was produced for this request (tagged), writes need their own confirmation, indications only reach the indication callback, "
         "one request outstanding, a close fails a waiting request at the same virtual instant, UDP: same counter repeated <= 3 times then DisconnectRequest, counter +1 per accepted request"
@@ -277,6 +295,9 @@ def run(ctx: Ctx) -> None:
         for prog in ("seq", "same", "par"):
             explore(ctx, __name__, "dm", (kind, prog, True), bound=bound)
         explore(ctx, __name__, "dm", (kind, "seq", False), bound=bound)   # no indication callback registered (the default)
+        explore(ctx, __name__, "dm", (kind, "reuse", True), bound=min(bound, 2))
+    explore(ctx, __name__, "dm", ("udp", "reuse", True, True), bound=min(bound, 2))     # route_back=True
+    explore(ctx, __name__, "dm", ("udp", "seq", True, True), bound=min(bound, 2))
     finalize_states(ctx)
 
 
